@@ -20,7 +20,8 @@ Forms ==
     <<"1", "=", "f">>, <<"2", "=", "g">>, <<"SP", "3", "SP", "=", "SP", "h">>,           \* numeric names
     <<"0", "1", "=", "i">>,                                                             \* zero-led numeric name
     <<"q", "=", "j", "=", "k">>,                                                        \* '=' inside the value
-    <<"1", "0", "0", "1", "=", "m">> }                                                  \* numeric name > 1000
+    <<"1", "0", "0", "1", "=", "m">>,                                                   \* numeric name > 1000
+    <<"r", "=", "n", "NL", "o">>, <<"4", "=", "p", "NL", "q">>, <<"s", "NL", "t">> }    \* a line break inside a value
 
 Lists == UNION { [1..n -> Forms] : n \in 0..MaxLen }
 
